@@ -32,6 +32,12 @@
 (*   irej   own grid, vector rising by a factor of 100; one whole standard *)
 (*          is off by 100 sigma_c: inconsistent -> rejected with EDOM; the *)
 (*          first point's value would make it a 2 sigma deviation          *)
+(*   det    one port, short / open / match only: exactly as many equations *)
+(*          as error terms.  The data fit any error model exactly (there   *)
+(*          is no residual), so enabling the model must neither change the *)
+(*          calibration nor make vnacal_new_solve reject the data: the     *)
+(*          manual lets the solve fail only when the p-value shows the     *)
+(*          measurements to be inconsistent with the model                 *)
 (*   few    only the first two standards of the set are measured (too few  *)
 (*          for every type), model enabled: vnacal_new_solve must report   *)
 (*          EDOM ("Too few measured standards were given") and release     *)
@@ -46,7 +52,7 @@ EXTENDS Integers, FiniteSets
 Types  == {"T8", "U8", "TE10", "UE10", "T16", "U16", "UE14", "E12"}
 TTypes == {"T8", "TE10", "T16"}
 Grids  == {"one", "cal", "two", "n"}
-DetKinds  == {"exact", "iacc", "irej", "few"}
+DetKinds  == {"exact", "iacc", "irej", "few", "det"}
 RateKinds == {"noisy", "outlier"}
 
 (* vnacal_new(3): more columns than rows needs T terms, more rows than     *)
@@ -62,6 +68,7 @@ IsConfig(x) ==
     /\ x.st \in 0..5
     /\ x.grid \in Grids
     /\ x.kind \in DetKinds \cup RateKinds
+    /\ x.kind = "det" => (x.r = 1 /\ x.c = 1)
     /\ IF x.kind \in {"iacc", "irej"}
        THEN /\ x.grid \in {"two", "n"}
             /\ x.vec \in {"nf", "tr"}
